@@ -195,7 +195,7 @@ r = jax.jacfwd(incremental_potential, 1)
 
 
 def update_state(elasticTrialStrain, stateOld, dt, props, hardening_model):
-    settings = ScalarRootFind.get_settings(x_tol=0, r_tol=_TOLERANCE*props[PROPS_Y0])
+    r_tol = _TOLERANCE*props[PROPS_Y0]
     eqpsOld = stateOld[EQPS]
 
     N = compute_flow_direction(elasticTrialStrain)
@@ -205,7 +205,12 @@ def update_state(elasticTrialStrain, stateOld, dt, props, hardening_model):
     # Without hardening (perfect plasticity, saturated Voce law) the root sits exactly on this bound and
     # the sign of the residual there is decided by rounding, which makes the root finder reject the
     # bracket. Move the bound out by the residual tolerance, so the residual at ub is positive.
-    ub = ub + settings.r_tol/(3.0*props[PROPS_MU])
+    ub = ub + r_tol/(3.0*props[PROPS_MU])
+    # The residual cannot be reduced below its change over one floating point spacing of eqps. With a
+    # steep rate sensitivity on top of a large accumulated plastic strain that change exceeds r_tol, and
+    # without a step tolerance the root finder ran out of iterations and returned NaN. Stop when the
+    # bracket has shrunk to the spacing of eqps.
+    settings = ScalarRootFind.get_settings(x_tol=2.0*np.finfo(np.float64).eps*ub, r_tol=r_tol)
     # Avoid the initial guess eqpsGuess = eqpsOld, because the power law rate sensitivity has an infinte slope
     # in this case.
     eqpsGuess = 0.5*(lb + ub)
